@@ -175,14 +175,21 @@ def wiring(prog, rep, dc: FuncInfo) -> None:
 
 
 def coverage(prog, rep, sd: FuncInfo) -> None:
+    """which (function, point, derivative) triples are handed to deriv_check, under which flag.  Everything is compared after
+    resolution, so the point may be a parameter (`x`) or a member of an iterate parameter (`iterate.x`); the derivative may be
+    evaluated through the evaluator at that point or be the iterate's own cached member (Iterate.<m> is evaluator.<m>(self.x))."""
+    import copy as _copy
+    from ..symex import resolve
     ff = facts_for(sd)
-    xs, ys = [p for p in sd.params if p != "self"][:2]
     calls = [n for n in own_nodes(sd.node) if isinstance(n, ast.Call) and dotted(n.func) == "deriv_check"]
     kinds = {}
     DC = "pygradflow.params.DerivCheck"
+    ev = "self.evaluator"
+    LP = "__lam__"
     for c in calls:
         si = ff.stmt_of(c)
         lam = c.args[0] if c.args else None
+        lam_body = None
         if isinstance(lam, ast.Name):
             # a local `def f(x): return <expr>` (or `f = lambda x: <expr>`) handed over by name
             defs = [n for n in ast.walk(sd.node) if isinstance(n, ast.FunctionDef) and n.name == lam.id and n is not sd.node]
@@ -194,14 +201,24 @@ def coverage(prog, rep, sd: FuncInfo) -> None:
                     lam = ast.Lambda(args=d.args, body=b_[0].value)
             elif len(lams) == 1 and not defs:
                 lam = lams[0]
-        if len(c.args) != 4 or not isinstance(lam, ast.Lambda) or len(lam.args.args) != 1:
-            rep.fail("derivative-kinds-covered", sd.qualname, short(si.stmt), "VIOLATED: deriv_check is not called as deriv_check(<function of x given in place>, x, derivative, params)", sd.loc(c))
+        if isinstance(lam, ast.Lambda) and len(lam.args.args) == 1:
+            # rename the function's own parameter so that it cannot be confused with an outer variable of the same name
+            lp = lam.args.args[0].arg
+            lb = _copy.deepcopy(lam.body)
+            for nn in ast.walk(lb):
+                if isinstance(nn, ast.Name) and nn.id == lp:
+                    nn.id = LP
+            env = {k: v for k, v in si.env.items() if k != LP}
+            lam_body = resolve(lb, env)
+        elif isinstance(lam, ast.Attribute):
+            # a bound method handed over directly: deriv_check(eval.obj, ...) is deriv_check(lambda x: eval.obj(x), ...)
+            lam_body = ast.Call(func=ff.resolved(si.stmt, lam), args=[ast.Name(id=LP, ctx=ast.Load())], keywords=[])
+        if len(c.args) != 4 or lam_body is None:
+            rep.fail("derivative-kinds-covered", sd.qualname, short(si.stmt), "VIOLATED: deriv_check is not called as deriv_check(<function of x>, x, derivative, params)", sd.loc(c))
             continue
-        lp = lam.args.args[0].arg
-        body = U(lam.body)
-        x_arg = U(c.args[1])
+        P = U(ff.resolved(si.stmt, c.args[1]))
         dv = U(ff.resolved(si.stmt, c.args[2]))
-        ev = "self.evaluator"
+        I = P[:-2] if P.endswith(".x") else None       # the iterate whose point is checked, if any
         gate = [f for f in si.facts if f[0] == "truthy" and "&" in f[1]]
         flag = None
         for g in gate:
@@ -211,27 +228,27 @@ def coverage(prog, rep, sd: FuncInfo) -> None:
                     m = enum_member(prog, sd, side, DC)
                     if m:
                         flag = m
-        lam_res = U(ff.resolved(si.stmt, lam.body)) if False else body
-        # resolve `eval` alias inside the lambda body
-        # rename the lambda's own parameter so that it cannot be confused with an outer variable of the same name
-        import copy as _copy
-        from ..symex import resolve
-        lb = _copy.deepcopy(lam.body)
-        for nn in ast.walk(lb):
-            if isinstance(nn, ast.Name) and nn.id == lp:
-                nn.id = "__lam__"
-        lam_body = U(resolve(lb, dict(si.env)))
-        lp = "__lam__"
-        if lam_body == f"{ev}.obj({lp})" and dv == f"{ev}.obj_grad({xs})" and x_arg == xs:
+        body = U(lam_body)
+
+        def deriv_forms(member, extra=""):
+            out = {f"{ev}.{member}({P}{extra})"}
+            if I is not None:
+                out.add(f"{I}.{member}" if not extra else f"{I}.{member}({extra[2:]})")
+            return out
+        Y = None
+        if isinstance(lam_body, ast.BinOp) and isinstance(lam_body.op, ast.Add) and isinstance(lam_body.right, ast.Call) and isinstance(lam_body.right.func, ast.Attribute) \
+                and lam_body.right.func.attr == "dot" and len(lam_body.right.args) == 1:
+            Y = U(lam_body.right.args[0])
+        if body == f"{ev}.obj({LP})" and dv in deriv_forms("obj_grad"):
             kinds["gradient"] = flag
-        elif lam_body == f"{ev}.cons({lp})" and dv == f"{ev}.cons_jac({xs})" and x_arg == xs:
+        elif body == f"{ev}.cons({LP})" and dv in deriv_forms("cons_jac"):
             kinds["jacobian"] = flag
-        elif lam_body == f"{ev}.obj_grad({lp}) + {ev}.cons_jac({lp}).T.dot({ys})" and dv == f"{ev}.lag_hess({xs}, {ys})" and x_arg == xs:
+        elif Y is not None and LP not in Y and body == f"{ev}.obj_grad({LP}) + {ev}.cons_jac({LP}).T.dot({Y})" and dv in deriv_forms("lag_hess", f", {Y}"):
             kinds["hessian"] = flag
         else:
             rep.fail("derivative-kinds-covered", sd.qualname, short(si.stmt),
-                     f"VIOLATED: this check compares `{lam_body[:90]}` with `{dv[:60]}`, which is none of (obj | obj_grad), (cons | cons_jac), (obj_grad + cons_jac' y | lag_hess(x, y)) "
-                     f"with every function evaluated at the lambda's own argument", sd.loc(c))
+                     f"VIOLATED: this check compares `{body[:100]}` with `{dv[:60]}` at `{P}`, which is none of (obj | obj_grad), (cons | cons_jac), (obj_grad + cons_jac' y | lag_hess(x, y)) "
+                     f"with every function evaluated at the function's own argument and the derivative taken at the checked point", sd.loc(c))
     rep.check(kinds.get("gradient") == "CheckFirst" and kinds.get("jacobian") == "CheckFirst", "derivative-kinds-covered", sd.qualname, "CheckFirst",
               f"under CheckFirst the gradient and the constraint Jacobian are checked (found {kinds})", sd.loc())
     rep.check(kinds.get("hessian") == "CheckSecond", "derivative-kinds-covered", sd.qualname, "CheckSecond",
